@@ -7,12 +7,13 @@ N=${1:-40}
 ./check --build || exit 2
 B=${VERIF_WORK:-$PWD}/build
 mkdir -p $B/det; bad=0
+RELAX=$(jq -r '[.findings[]|select(.status=="open")|.relaxation]|join(",")' known_findings.json)
 for p in $(jq -r '.checks[].property_id' MANIFEST.json); do
   i=0
   for gmp in 1 2 2 16; do
     i=$((i+1))
     GOMAXPROCS=$gmp VERIF_DET=1 VERIF_MODE=worker VERIF_PROP=$p VERIF_SEED=${VERIF_SEED:-5} VERIF_WORKER=0 VERIF_NW=1 VERIF_RUNS=$N VERIF_BUDGET_S=600 \
-      VERIF_RELAX=suffixnames,nopartialreads,root-name,stale-index-open,torn-content-open,torn-tail-append VERIF_OUT=$B/det/$p.$i.jsonl VERIF_ROOT=$PWD VERIF_WORK=${VERIF_WORK:-$PWD} \
+      VERIF_RELAX=$RELAX VERIF_OUT=$B/det/$p.$i.jsonl VERIF_ROOT=$PWD VERIF_WORK=${VERIF_WORK:-$PWD} \
       $B/sim.test -test.run '^TestVerif$' -test.timeout 0 2>/dev/null | grep '^DET' > $B/det/$p.$i.det &
   done
   wait
